@@ -223,7 +223,54 @@ def obj_sizes(repo, cdir):
     return out
 
 
-def lean_file(pid, jname, ctx, sizes):
+def rust_consts(src, rel):
+    """identifier constants of a generated module: name -> Lean Ident / byte list text"""
+    out = {}
+    for name, val in re.findall(r"pub const ([A-Z0-9_]+): (?:i32|u16) = (-?\d+);", src):
+        out[name] = "(.ordinal %s)" % lean_int(int(val))
+    for name, val in re.findall(r"pub const ([A-Z0-9_]+): Uuid = Uuid::from_u128\(0x([0-9a-fA-F_]+)\);", src):
+        h = val.replace("_", "")
+        if len(h) != 32:
+            err("%s: uuid constant %s is not 128 bits" % (rel, name))
+        out[name] = "(.uuid [%s])" % ", ".join(str(x) for x in bytes.fromhex(h))
+    for name, val in re.findall(r"pub const ([A-Z0-9_]+): &'static \[u8; 8\] = b\"((?:\\x[0-9a-fA-F]{2}|[^\"\\])*)\";", src):
+        bs = []
+        i = 0
+        while i < len(val):
+            if val[i] == "\\":
+                bs.append(int(val[i + 2:i + 4], 16))
+                i += 4
+            else:
+                bs.append(ord(val[i]))
+                i += 1
+        out[name] = "[%s]" % ", ".join(str(x) for x in bs)
+    return out
+
+
+def rust_dispatch(repo, cdir, relfile, fn, connless=False):
+    """the arms of a generated dispatch function in source order: [(identifier, variant)]; the
+    variant must be decoded by the struct of the same name"""
+    rel = "gamenet/%s/src/%s" % (cdir, relfile)
+    src = exlib.strip_rust_comments(exlib.read(repo, rel))
+    consts = rust_consts(src, rel)
+    body = exlib.fn_body(src, fn, 0, rel)
+    if connless:
+        arms = [(c, v, st) for c, v, st in re.findall(r"\b([A-Z0-9_]+) => \w+::(\w+)\((\w+)::decode\(", body)]
+    else:
+        arms = [(c, v, st) for _, c, v, st in re.findall(r"\b(Ordinal|Uuid)\(([A-Z0-9_]+)\) => \w+::(\w+)\((\w+)::decode\(", body)]
+    if not arms:
+        err("%s: no dispatch arms found in %s" % (rel, fn))
+    out = []
+    for c, v, st in arms:
+        if c not in consts:
+            err("%s: dispatch arm %s has no constant" % (rel, c))
+        if v != st:
+            err("%s: arm %s constructs variant %s from struct %s" % (rel, c, v, st))
+        out.append("(%s, \"%s\")" % (consts[c], v))
+    return "[" + ", ".join(out) + "]"
+
+
+def lean_file(pid, jname, ctx, sizes, dispatch):
     j = ctx.j
     s = exlib.HEADER
     s += "-- source: gamenet/generate/spec/%s\n" % jname
@@ -265,6 +312,11 @@ def lean_file(pid, jname, ctx, sizes):
     for key in ("system", "game", "connless", "objects"):
         s += "  %s := [%s],\n" % (key, ", ".join(names[key]))
     s += "  objSizes := [%s]\n}\n\n" % ", ".join("(%d, %d)" % x for x in sizes)
+    s += "/-- the arms of the generated `System::decode_msg` in source order: identifier the constant stands for, variant -/\n"
+    s += "def rustSystem : List (Ident × String) := %s\n" % dispatch["system"]
+    s += "def rustGame : List (Ident × String) := %s\n" % dispatch["game"]
+    s += "def rustObjects : List (Ident × String) := %s\n" % dispatch["objects"]
+    s += "def rustConnless : List (List UInt8 × String) := %s\n\n" % dispatch["connless"]
     s += "end Tw.Gen.Spec_%s\n" % pid
     return s
 
@@ -491,8 +543,23 @@ def run(repo):
             if part not in j:
                 err("%s: missing part %s" % (rel, part))
         ctx = Ctx(pid, j)
-        files["Spec_%s.lean" % pid] = lean_file(pid, jname, ctx, obj_sizes(repo, cdir))
+        dispatch = {
+            "system": rust_dispatch(repo, cdir, "msg/system.rs", "decode_msg"),
+            "game": rust_dispatch(repo, cdir, "msg/game.rs", "decode_msg"),
+            "objects": rust_dispatch(repo, cdir, "snap_obj.rs", "decode_obj"),
+            "connless": rust_dispatch(repo, cdir, "msg/connless.rs", "decode_connless", connless=True),
+        }
+        files["Spec_%s.lean" % pid] = lean_file(pid, jname, ctx, obj_sizes(repo, cdir), dispatch)
         rust += rust_proto(pid, crate, ctx)
+    # gamenet/common/src/msg.rs: the integer literals of the id codec, in source order
+    rel = "gamenet/common/src/msg.rs"
+    src = exlib.strip_rust_comments(exlib.read(repo, rel))
+    g = exlib.HEADER + "namespace Tw.Gen.GamenetMsg\n\n"
+    for fn in ("decode_id", "encode_id"):
+        g += "/-- integer literals of `fn %s` in %s, in source order -/\n" % (fn, rel)
+        g += "def lits_%s : List Nat := %s\n\n" % (fn, exlib.lean_nat_list(exlib.int_literals(exlib.fn_body(src, fn, 0, rel))))
+    g += "end Tw.Gen.GamenetMsg\n"
+    files["GamenetMsg.lean"] = g
     path = os.path.join(os.path.dirname(os.path.dirname(os.path.dirname(os.path.abspath(__file__)))), "harness", "src", "gen_gamenet_table.rs")
     old = None
     if os.path.exists(path):
